@@ -227,6 +227,12 @@ Shapes(k, st) ==
       [shape |-> "rootchild", site |-> s.site,      \* a root component with a child site pointing out
        u |-> U(<<Slot(Root, k, "X", Conc("X", <<Ch(s.site, s.kind, R(Root, B1, s.kind, "Y", st))>>)),
                  Slot(B1, s.kind, "Y", Conc("Y", <<>>))>>, R(Root, Root, k, "X", st), k)],
+      \* an external object that the root reaches FIRST through a local alias (components are walked by name: A -> #B, B -> b.json#X),
+      \* with a same-document child reference of its own
+      [shape |-> "localalias_childlocal", site |-> s.site,
+       u |-> U(<<Slot(Root, k, "A", RefC(R(Root, Root, k, "B", st))), Slot(Root, k, "B", RefC(R(Root, B1, k, "X", st))),
+                 Slot(B1, k, "X", Conc("X", <<Ch(s.site, s.kind, R(B1, B1, s.kind, "Y", st))>>)), Slot(B1, s.kind, "Y", Conc("Y", <<>>))>>,
+               R(Root, Root, k, "A", st), k)],
       \* a whole-file element (in another directory than the root) whose child points at a definition of its OWN file ...
       [shape |-> "wholedef", site |-> s.site,
        u |-> U(<<Slot(W1, k, "", Conc("W", <<Ch(s.site, s.kind, DefRef(s.kind, "T"))>>)), Slot(W1, s.kind, DefName("T"), Conc("T", <<>>))>>,
@@ -425,6 +431,7 @@ QuickSlice(sh, st, e, pos) ==
    \/ (sh.shape = "wholedef_ref" /\ st = "plain" /\ e \in {"file_rel", "uri_remote"} /\ pos = "op" /\ sh.site \in {"properties", "schema", "content.schema", "headers"})
    \/ (sh.shape \in {"direct", "chain3", "child", "wholefile"} /\ st = "plain" /\ e \in {"resolvein", "file_abs_toggled", "resolvein_toggled"} /\ pos = "op")
    \/ (sh.shape \in {"direct", "child", "sameroot"} /\ st = "plain" /\ e \in {"file_abs_retry", "resolvein_retry"} /\ pos = "op")
+   \/ (sh.shape = "localalias_childlocal" /\ st = "plain" /\ e = "data" /\ pos = "op")
    \/ (sh.shape \in {"deepcomp_local", "rootdef", "pi_nearmiss_local", "pathfragment_nearmiss_local"} /\ st = "plain" /\ e = "data")
    \/ (st \in AbsStyles /\ sh.shape \in {"direct", "child", "wholefile"} /\ e = "datapath" /\ pos = "op")
    \/ sh.shape = "otherhost_samepath"
@@ -449,7 +456,7 @@ QuickSlice(sh, st, e, pos) ==
 
 (* thorough: the full product for the shapes of rounds 1-5; the large families added in round 6 and the Loader histories are    *)
 (* combined with the entry points that differ in how locations are formed, not with every one of the fourteen                    *)
-NewFamilies == Heavy \cup {"childpair", "childpair_root", "childpair_local", "pi_childpair", "deepback2"}
+NewFamilies == Heavy \cup {"localalias_childlocal", "childpair", "childpair_root", "childpair_local", "pi_childpair", "deepback2"}
 ThoroughSlice(sh, st, e, pos) ==
    /\ (sh.shape \in NewFamilies => e \in {"file_abs", "file_rel", "datapath", "data", "uri_remote"})
    /\ (sh.shape \in NewFamilies /\ st \notin RelStyles => e = "file_abs")
